@@ -50,7 +50,8 @@ elif sys.argv[1] == "rerun":
     for dest in sorted(SEEDED.iterdir()):
         if args and not any(a in dest.name for a in args): continue
         meta = json.loads((dest / "meta.json").read_text())
-        checks = [f"C{i:02d}" for i in range(1, 21)] if allchecks else sorted(set(list(meta.get("checks", {})) + [meta["property"]]))
+        also = [c for a in sys.argv if a.startswith("--also=") for c in a[7:].split(",") if c]  # further checks expected to see it
+        checks = [f"C{i:02d}" for i in range(1, 21)] if allchecks else sorted(set(list(meta.get("checks", {})) + [meta["property"]] + also))
         res = mutant(dest / "patch.diff", None, checks, tests=False, tier=tier)
         if "checks" not in res:
             print(dest.name, "ERROR", res); continue
